@@ -214,6 +214,9 @@ fn gen_pipe_cfg(r: &mut Rng, thorough: bool, perm: bool) -> Sc {
                 } else {
                     // reads: count below / at / above what is available is decided at run time; bias to small and large
                     let n = if r.chance(1, 4) { n * 4 + 1 } else { n };
+                    // "at most the requested": a request far beyond anything a pipe can hold (the usual
+                    // read-everything idiom, up to counts with the top bit set) still returns what is available
+                    let n = if r.chance(1, 16) { *r.pick(&[u64::MAX, 1u64 << 63, (1u64 << 63) + 5, (1u64 << 63) - 1, 1u64 << 32, (1u64 << 31) + 1, 0xffff_ffff]) } else { n };
                     let off = r.below(DATA_LEN - n.min(DATA_LEN - 1));
                     ops.push(Op::Read { fd: fd.to_string(), slot, imm, buf: buf.to_string(), off, n });
                 }
